@@ -433,10 +433,9 @@ Definition fr_last_class (body : list stmt) : option string :=
   | _ => None
   end.
 
-(* lenient = false: the code as found, `self.imported_classes[name]` raises KeyError for a call on a name that is
-   not a package import (finding C15-forward-refs-custom-operations); lenient = true: such a call is skipped
-   (fixes/C15-forward-refs-custom-operations.diff).  The tie says which one the tree implements. *)
-Definition fr_method (lenient : bool) (ic : list (string * string)) (m : pmethod)
+(* a call on a name that is not a package import (`self.get_data(response)` of the custom-operation methods) is
+   skipped: /repo 91a5368 (before it the lookup raised KeyError, finding C15-forward-refs-custom-operations) *)
+Definition fr_method (ic : list (string * string)) (m : pmethod)
   : option (pmethod * list string (*annotation names*) * list string (*imported in method*)) :=
   let ps := map (fr_param ic) (m_params m) in
   let '(ret, rnames) := match m_returns m with
@@ -449,17 +448,17 @@ Definition fr_method (lenient : bool) (ic : list (string * string)) (m : pmethod
   | None => Some (m1, names, [])
   | Some cls =>
       match lookup cls ic with
-      | None => if lenient then Some (m1, names, []) else None  (* KeyError *)
+      | None => Some (m1, names, [])
       | Some from => Some (with_ret_body m1 ret (SImport 1 from cls :: m_body m), names, [cls])
       end
   end.
 
-Fixpoint fr_methods (lenient : bool) (ic : list (string * string)) (ms : list pmethod)
+Fixpoint fr_methods (ic : list (string * string)) (ms : list pmethod)
   : option (list pmethod * list string * list string) :=
   match ms with
   | [] => Some ([], [], [])
   | m :: r =>
-      match fr_method lenient ic m, fr_methods lenient ic r with
+      match fr_method ic m, fr_methods ic r with
       | Some (m', a, b), Some (r', a2, b2) => Some (m' :: r', a ++ a2, b ++ b2)
       | _, _ => None
       end
@@ -491,9 +490,9 @@ Definition fr_tc_imports (ic : list (string * string)) (types : list string) : o
                | _, _ => None
                end) types (Some []).
 
-Definition fr_client (lenient : bool) (c : cmodule) : option cmodule :=
+Definition fr_client (c : cmodule) : option cmodule :=
   let ic := fr_imported (cm_imports c) in
-  match fr_methods lenient ic (cm_methods c) with
+  match fr_methods ic (cm_methods c) with
   | None => None
   | Some (ms, ann_names, in_method) =>
       let types := dedup ann_names in
@@ -511,9 +510,9 @@ Definition fr_client (lenient : bool) (c : cmodule) : option cmodule :=
       end
   end.
 
-Definition fr_step (lenient : bool) (h : hook) (o : obj) : option obj :=
+Definition fr_step (h : hook) (o : obj) : option obj :=
   match h, o with
-  | HClientModule, OClient c => match fr_client lenient c with Some c' => Some (OClient c') | None => None end
+  | HClientModule, OClient c => match fr_client c with Some c' => Some (OClient c') | None => None end
   | _, _ => Some o
   end.
 
@@ -528,7 +527,7 @@ Definition nr_step (h : hook) (o : obj) : obj :=
 Inductive plugin :=
 | PShorter (st : sh_state)
 | PExtract (st : ex_state)
-| PForward (lenient : bool)
+| PForward
 | PNoReimports
 | PIdentity.            (* a plugin class overriding no hook: Plugin's defaults return their argument *)
 
@@ -536,7 +535,7 @@ Definition step (p : plugin) (h : hook) (o : obj) : option (plugin * obj) :=
   match p with
   | PShorter st => match sh_step st h o with Some (st', o') => Some (PShorter st', o') | None => None end
   | PExtract st => match ex_step st h o with Some (st', o') => Some (PExtract st', o') | None => None end
-  | PForward l => match fr_step l h o with Some o' => Some (p, o') | None => None end
+  | PForward => match fr_step h o with Some o' => Some (p, o') | None => None end
   | PNoReimports => Some (p, nr_step h o)
   | PIdentity => Some (p, o)
   end.
@@ -875,8 +874,7 @@ Definition dPlugin (e : sexp) : option plugin :=
       Some (PShorter {| sh_fragments_module := fm; sh_classes := []; sh_imported := []; sh_extended := [] |})
   | L [A "extract"; A om] =>
       Some (PExtract {| ex_module := om; ex_gqls := []; ex_vars := []; ex_written := false |})
-  | A "forward" => Some (PForward false)
-  | A "forward-lenient" => Some (PForward true)
+  | A "forward" => Some PForward
   | A "noreimports" => Some PNoReimports
   | A "identity" => Some PIdentity
   | _ => None
